@@ -223,7 +223,7 @@ CLAIMS = {
 
 # clauses added after the seeding rounds (DESIGN.md section 3 marks them "added after seeding")
 ADDENDA = {
-    "C01": "Also decides: (R01.c/d/e) the narrowing plumbing clauses shared with C02 (match-guard constraints, operator mirroring, origin-subset test); (R01.f) constant-index arithmetic of sequence subscripts, folded over a finite grid (in-range test == -n <= k < n; forward position k, backward position -k-1; give up at the first unpacked member); (R01.g/h) the narrowing models of C02 R02.k/l (a value narrowed to Never is claimed unreachable).",
+    "C01": "Also decides: (R01.c/d/e) the narrowing plumbing clauses shared with C02 (match-guard constraints, operator mirroring, origin-subset test); (R01.f) constant-index arithmetic of sequence subscripts, folded over a finite grid (in-range test == -n <= k < n; forward position k, backward position -k-1; give up at the first unpacked member); (R01.g/h) the narrowing models of C02 R02.k/l (a value narrowed to Never is claimed unreachable); (R01.i) _unpack_sequence_value interpreted on every member shape of up to 4 members x every target list: each target's inferred value contains the element Python's unpacking gives it; (R01.j) visit_MatchSequence and LenPredicate interpreted for every sequence pattern of up to 3 sub-patterns against CPython executing the same match statement.",
     "C02": "Also decides: (R02.f) closed-world complement only under an identity test; (R02.g) match guards always contribute their constraint; (R02.h) operator mirrored when the narrowed operand is on the right; (R02.i) origin-subset test before applying a constraint; (R02.j) the isinstance() predicate is a runtime-class test - its negative arm does not drop on assignability alone and its promoted-type table equals TypeObject's artificial bases; by model extraction (R02.k/l): IsAssignablePredicate, EqualsPredicate, InPredicate and the is_instance / is_value / is_truthy / one_of / all_of arms of Constraint.apply_to_value are interpreted from their AST over a universe of 12 runtime objects and 7 classes for both polarities - no object that takes the branch is lost, nothing outside the value and the tested one appears.",
     "C03": "Also decides: (R03.d) accepting shortcuts before the union member loop need an exact justification; by model extraction (R03.e): the can_assign methods of Value / KnownValue / TypedValue / MultiValuedValue / AnyValue and TypeObject are interpreted from their AST with real runtime objects and classes as payloads - each of 12 objects is accepted by each of 30 types exactly when it is a member (isinstance with numeric promotion, type-strict literals), incl. the large-union fast path; (R03.f) GenericValue / SequenceValue / TypedDictValue.can_assign, replace_known_sequence_value and get_generic_args_for_type interpreted on 38 real container objects x 111 container types and 21 dict objects x 180 TypedDicts: accepted exactly when a structural member.",
     "C04": "Also decides: (R04.g) exact early accepts in MultiValuedValue.can_assign; (R04.h) SequenceValue acceptances are dominated by the length comparison; (R04.i) direction of the metatype test; by model extraction (R04.j): on every ordered pair of 36 static types acceptance implies inclusion of member sets, reflexivity, Never/Any laws, union-right = forall, union-left = exists, exclude-any monotone; (R04.k) the same for every pair of 111 container types and of 180 TypedDicts (the fixed-tuple-accepts-variadic-tuple leniency is counted, not reported); (R04.l) accept-by-identity shortcuts on compare=False fields also compare the value-holding fields.",
@@ -232,7 +232,7 @@ ADDENDA = {
     "C07": "Also decides: (R07.e) actual parameters are marked consumed only when paired with a named expected parameter; by model extraction (R07.f/g): Signature.can_assign is interpreted from its AST for every pair of def-legal signatures (expected <= 3/4 parameters, actual <= 3 under every naming from a pool of 4; 334,952 / 959,896 pairs) - every accepted pair must let each call shape (<= 3 positionals, <= 3 keywords) that binds to the expected signature bind to the actual one, and every argument flow of a commonly bound shape must have had its annotation pair compared.",
     "C08": "By model extraction: (R08.f) OverloadedSignature.check_call and _unite_rets are interpreted from their AST with overloads as model objects following the documented single-overload contract, for every set of 2-3 (thorough 4) overloads x every argument (atom, union, Any): plain arguments are typed by the first accepting overload and diagnosed iff none accepts; unions are accepted iff every member is, with each member's own result in the type; Any never selects one overload's type when several match. Also decides: (R08.e) union decomposition for positional and keyword arguments alike.",
     "C09": "Also decides: (R09.e) the scope synthesised for a suppressing with-block keeps LEAVES_LOOP; by model extraction (R09.f): the control-flow visitors and the scope machinery are interpreted from their AST in the collecting phase on ~1000 generated function bodies (if / while / for with else, break, continue, return, try / except / else / finally, suppressing and non-suppressing with blocks, dead statements after jumps, opaque calls, one level of nesting); for every reachable use of a local the recorded definitions lie between the strict and the liberal reaching-definitions sets of an independent analysis, and the unbound state is recorded iff some path leaves the name unbound; (R09.g) _visit_function_body with both phases, visit_Nonlocal / visit_Global and the value resolution are interpreted on 750 functions with a nested function that reads or assigns names of the enclosing function or the module and is called at known points: the values obtained in the checking phase lie between strict and liberal reaching definitions, and on R09.f's programs the checking phase obtains exactly the recorded definitions.",
-    "C10": "Also decides: (R10.4) caches shared between files are keyed by everything the cached value depends on.",
+    "C10": "Also decides: (R10.4) caches shared between files are keyed by everything the cached value depends on; (R10.5) unify_bounds_maps / intersect_bounds_maps interpreted on sequences of up to three maps: inputs unchanged, no list shared with an input, repetition stable.",
     "C11": "Also decides, by model extraction: (R11.7) show_error, has_file_level_ignore, _lines, is_enabled and get_unused_ignores are interpreted from their AST on every file of <= 3 lines from 11 line kinds x every sequence of <= 2 raw diagnostics x every set of enabled codes (~83,000 runs): reported = enabled and not suppressed by a documented ignore form; used / unused ignore comments are exactly those that did / did not suppress something; the used set does not depend on the enabled codes; (R11.8) is_error_code_enabled interpreted on views of one Options object for pairs of modules in both orders: every answer equals the layered configuration, whatever was asked before.",
     "C12": "Also decides: (R12.5) format()/payload operations on user objects run under an exception guard; (R12.6) payload comparisons go through safe_equals or an except clause; (R12.7) a container of the checker indexed by a literal payload is inside a sufficient try, behind a len() range check or behind a membership test; (R12.8) metaclass methods (mro, __subclasses__) are not called through a class object of the checked program; (R12.9) no can_assign application of the container model (unhashable objects, large unions) raises; (R12.10) no list / dict / set is stored in a hashed field of a Value / Bound / Extension class with generated __init__ and __hash__.",
     "C13": "Also decides: (R13.3) coroutine wrapping of async functions is conditioned on async-ness only in both signature builders; (R13.4) the runtime route never reads typing's shared ForwardRef evaluation cache; by model extraction (R13.5): the AST route, the string route and the runtime route of annotation evaluation are interpreted from their AST on ~800 annotation expressions of the typing vocabulary (the runtime form is built by CPython from the same expression) and must yield equal values and agree on rejection.",
